@@ -17,7 +17,8 @@ EXTRACTORS = ["p21rw", "attrnull", "stepfile", "enums"]
 CLASSES = ["top", "aftval", "agg", "agg2", "sel", "cx"]
 GOOD_CLASSES = ["top", "aftval", "agg", "agg2"]
 NAMED_COMMENTS = {"plain": "/* c */", "empty": "/**/", "stars": "/* a * b / c */", "semicolon": "/*#9=X(1);*/",
-                  "multiline": "/*\n multi\n line */", "delims": "/* ,) */", "quote": "/* it's */", "hash": "/* #3 */"}
+                  "multiline": "/*\n multi\n line */", "delims": "/* ,) */", "quote": "/* it's */", "hash": "/* #3 */",
+                  "data": "/* DATA; */", "endsec": "/* ENDSEC; */", "endiso": "/*END-ISO-10303-21;*/"}
 
 
 # ------------------------------------------------------------------ generation
@@ -109,7 +110,7 @@ def gen_cases(ctx, lib, n, allowed_classes):
                 pop = W.respell(rng, lib.schema, pop)
                 resp = True
             lay, tag = Layout(rng.randrange(1 << 30), comment_classes=cc), "comments:" + "+".join(cc)
-        lay.header = k % len(W.HEADERS) if k % 2 == 0 else 0
+        lay.header = k % len(W.HEADERS) if k % 3 != 2 else 0
         cases.append(Case(lib, pop, lay, resp, tag))
     return cases
 
@@ -237,6 +238,18 @@ def minimise(ctx, b, case, msg):
     """-> (key, what, replay) for a failing conforming file"""
     lib, sch = case.lib, case.lib.schema
     canon = Layout(0, ws=False)
+    if case.layout.header:
+        # does the header section decide?  same data section, canonical layout, the case's header vs the minimal header
+        hl = Layout(0, ws=False, header=case.layout.header)
+        text_h, rr_h = real_one(ctx, b, lib, case.pop, hl)
+        m_h = oracle(case.pop, rr_h, text_h)
+        _, rr_0 = real_one(ctx, b, lib, case.pop, canon)
+        if m_h and not oracle(case.pop, rr_0):
+            small = closure(sch, case.pop, [case.pop[0]])
+            t2, r2 = real_one(ctx, b, lib, small, hl)
+            m2 = oracle(small, r2, t2)
+            return (f"header:variant{case.layout.header % len(W.HEADERS)}", m2 or m_h,
+                    {"schema": lib.express, "file": t2 if m2 else text_h, "layout": hl.describe()})
     text, rr = real_one(ctx, b, lib, case.pop, canon)
     m0 = oracle(case.pop, rr)
     if m0:
